@@ -341,6 +341,29 @@ func VerifSnapshot(hh handlers.Handler) string {
 	return out
 }
 
+// VerifSnapshotRel is VerifSnapshot with expiry times relative to now ("x" = already past).
+func VerifSnapshotRel(hh handlers.Handler, now uint32) string {
+	h := verifH(hh)
+	ks := make([]string, 0, len(h.data))
+	for k := range h.data {
+		ks = append(ks, k)
+	}
+	sort.Strings(ks)
+	out := ""
+	for _, k := range ks {
+		e := h.data[k]
+		switch {
+		case e.exptime == 0:
+			out += fmt.Sprintf("%q=%q/%x/never;", k, e.data, e.flags)
+		case e.exptime <= now:
+			out += fmt.Sprintf("%q=%q/%x/x;", k, e.data, e.flags)
+		default:
+			out += fmt.Sprintf("%q=%q/%x/+%d;", k, e.data, e.flags, e.exptime-now)
+		}
+	}
+	return out
+}
+
 // VerifReset empties the map behind a handler.
 func VerifReset(hh handlers.Handler) {
 	h := verifH(hh)
